@@ -9,12 +9,21 @@
   configuration `cfg` (element class normal/slim, indent unit, mini).  The only hypothesis is the one the property
   itself makes (DESIGN §8 #21): no element of the input carries the reserved name of the invisible wrapper.
 
-  String level (`…_partial` below): the step from the output *text* back to tokens needs the character-level lexer
-  (Model/Lexer of C01/C02, built by another group); what is missing is stated at each partial theorem.
+  String level: `formatter_output_lexes` / `formatter_output_reparses` / `formatter_roundtrip_strict` (below) go from
+  the output *text* back to tokens with the character-level lexer of C01 (`lexStrict`, Model/Lexer.lean) and on to the
+  plain parser's tree, for all four classes and for single- and multi-root documents in the strict sub-language
+  (lemmas: AHP/Lemmas/FormatLex*.lean); `mini_output_is_fixed_point_text` is C12c on text.  What these statements
+  assume is listed under "What is partial".
 -/
 import AHP.Lemmas.Format
+import AHP.Lemmas.FormatLexMini
 namespace AHP.C11
 open AHP AHP.Fmt
+-- the lexer's side (namespace `AHP`) has declarations with the same short names as the formatter model
+-- (`AHP.Fmt`); inside this file the short names keep meaning the formatter model's
+export AHP.Fmt (Frame Node binaryAttrs boolString collapseSpaces dictDel dictSet docHTML endTag handleEnd
+  handleStart isAlnum isAlpha isVoid renderAttr run startTag step styleStr styleToDict toNodeL validAttrName
+  voidTags wrapToks)
 
 /-! #### table obligations: the sets of constants.py the statements below are about -/
 
@@ -108,6 +117,92 @@ theorem end_tag_text (n ind : Str) (kids : List Node) :
   · exact Or.inl h
   · exact Or.inr h.1
 
+/-! #### string level: the output text lexes back and re-parses to the same document -/
+
+/-- **C11 (string level, a).**  Any of the four formatter classes (normal or slim element class, mini or an indent
+    unit of spaces/tabs), any token sequence whose plain-parser tree is a document in the strict sub-language
+    (`FNode.Strict`: well-formed names and attribute items, text blocks that are data runs / references / comments,
+    raw-text content free of its closing expression, attribute stores that are re-read unchanged), single- or
+    multi-root (`WrapperOK`): the formatter's output TEXT is in the domain of the strict lexer and lexes to `docToks` — the token rendering of the decorated
+    tree, each `_indent` glued to the data run before it (or a data run of its own). -/
+theorem formatter_output_lexes (cfg : Cfg) (hi : IndentWS cfg) (toks : List Tok)
+    (h : NoWrapperStart toks) (ps : St) (hp : Plain.feed toks = .ok ps)
+    (n : Str) (st : AStore) (sc : Bool) (kids : List FNode)
+    (hroot : ps.root = some (FNode.elem n st sc kids).toNode) (hw : WrapperOK n st sc kids)
+    (hs : (FNode.elem n st sc kids).Strict) (hdt : DtOK ps.doctype) :
+    ∃ out, format cfg toks = .ok out ∧ lexStrict out = some (docToks cfg ps.doctype n st sc kids) := by
+  refine ⟨renderToksY (styleOf cfg.kind) (docToks cfg ps.doctype n st sc kids),
+    format_text cfg toks h ps hp n st sc kids hroot hw hs, ?_⟩
+  unfold docToks
+  by_cases hn : n = wrapper
+  · subst hn
+    simp only [if_true]
+    exact doc_lex_multi cfg hi _ kids (strictL_of_wrapper st sc kids hs) hdt
+  · simp only [hn, if_false]
+    exact doc_lex cfg hi _ _ hs hdt
+
+/-- trees with the same skeleton have the same canonical skeleton (`cskel` = `skel`, then empty data blocks dropped
+    and adjacent data blocks joined) — so `formatter_preserves_document` also reads with `cskel` -/
+theorem cskel_of_skel (a b : Node) (h : skel a = skel b) : cskel a = cskel b := by
+  unfold cskel; rw [h]
+
+/-- **C11 (string level, b).**  Under the same hypotheses: lexing the formatter's output text and building with the
+    plain parser gives a document with the same doctype whose tree equals the input's tree modulo formatting —
+    same elements, nesting, attribute stores and self-closing flags, references and comments verbatim, text equal
+    after removing white space (`cskel`: the white-space-only blocks the `_indent`s add between elements vanish,
+    an `_indent` glued to a data run is white space of that run). -/
+theorem formatter_output_reparses (cfg : Cfg) (hi : IndentWS cfg) (toks : List Tok)
+    (h : NoWrapperStart toks) (ps : St) (hp : Plain.feed toks = .ok ps)
+    (n : Str) (st : AStore) (sc : Bool) (kids : List FNode)
+    (hroot : ps.root = some (FNode.elem n st sc kids).toNode) (hw : WrapperOK n st sc kids)
+    (hs : (FNode.elem n st sc kids).Strict) (hdt : DtOK ps.doctype) :
+    ∃ out toks' ps', format cfg toks = .ok out ∧ lexStrict out = some toks' ∧
+      Plain.feed (toks'.map Tok.ofToken) = .ok ps' ∧ ps'.doctype = ps.doctype ∧
+      ps'.root.map cskel = ps.root.map cskel := by
+  obtain ⟨out, hout, hlex⟩ := formatter_output_lexes cfg hi toks h ps hp n st sc kids hroot hw hs hdt
+  rw [hroot]
+  unfold docToks at hlex
+  by_cases hn : n = wrapper
+  · obtain ⟨hst, hsc, hmulti⟩ := hw hn
+    subst hn; subst hsc; subst hst
+    simp only [if_true] at hlex
+    have hk' := strictL_of_wrapper {} false kids hs
+    refine ⟨out, _, _, hout, hlex, doc_reparse_multi cfg hi ps.doctype kids hk' hdt hmulti, rfl, ?_⟩
+    simp only [St.root, rootOfStack, Option.map_some]
+    rw [cskel_outM cfg hi ps.doctype {} kids hk']
+  · simp only [hn, if_false] at hlex
+    refine ⟨out, _, _, hout, hlex, doc_reparse cfg hi ps.doctype n st sc kids hs hdt, rfl, ?_⟩
+    simp only [St.root, rootOfStack, Option.map_some]
+    rw [cskel_outRoot cfg hi n st sc kids hs]
+
+/-- **C11 (string level, token form).**  For every strict single-root document tree `u` (any size, any depth),
+    every doctype and every formatter class: feed the formatter the token sequence of the document; its output
+    text lexes, and the plain parser builds from it a document with the same doctype and the tree of `u` modulo
+    formatting. -/
+theorem formatter_roundtrip_strict (cfg : Cfg) (hi : IndentWS cfg) (dt : Option Str) (hdt : DtOK dt)
+    (n : Str) (st : AStore) (sc : Bool) (kids : List FNode) (hs : (FNode.elem n st sc kids).Strict)
+    (hn : n ≠ wrapper) (hnw : NoWrapperStart (strictToks dt (.elem n st sc kids))) :
+    ∃ out toks' ps', format cfg (strictToks dt (.elem n st sc kids)) = .ok out ∧ lexStrict out = some toks' ∧
+      Plain.feed (toks'.map Tok.ofToken) = .ok ps' ∧ ps'.doctype = dt ∧
+      ps'.root.map cskel = some (cskel (FNode.elem n st sc kids).toNode) := by
+  have hp := plain_feed_strictToks dt hdt n st sc kids hs
+  exact formatter_output_reparses cfg hi _ hnw _ hp n st sc kids rfl (fun e => absurd e hn) hs hdt
+
+/-! #### C12c at string level (stated here: the lexer bridge lives with C11; `Props/C12.lean` lists it as partial) -/
+
+/-- **mini² = mini on text.**  Mini class (normal or slim elements), any doctype, any strict single-root document
+    `u` — any size and depth — without adjacent data blocks and without the reserved name: feed the formatter the
+    tokens of `u`; its output text lexes (`lexStrict`), and feeding the formatter those tokens gives the identical
+    text.  (With adjacent data blocks — markup the formatter drops between two text pieces — it fails:
+    `C12.mini_dropped_markup_counterexample`, the known finding.) -/
+theorem mini_output_is_fixed_point_text (cfg : Cfg) (hm : cfg.mini = true) (hi : IndentWS cfg) (dt : Option Str)
+    (hdt : DtOK dt) (n : Str) (st : AStore) (sc : Bool) (kids : List FNode)
+    (hs : (FNode.elem n st sc kids).Strict) (hg : (FNode.elem n st sc kids).Glued)
+    (hnw : (FNode.elem n st sc kids).NoWrapper) :
+    ∃ out toks2, format cfg (strictToks dt (.elem n st sc kids)) = .ok out ∧ lexStrict out = some toks2 ∧
+      format cfg (toks2.map Tok.ofToken) = .ok out :=
+  mini_text_fixed_point cfg hm hi dt hdt n st sc kids hs hg hnw
+
 /-! #### non-vacuity -/
 
 /-- a document with a nested preformatted span, text before the root's end and an implicit close -/
@@ -120,14 +215,109 @@ example : okIs (format (mkCfg .pretty (.str (str "  ")) false) sampleToks)
     "\n<div class=\"a b\" > x \n  <pre ><span >  y  </span></pre>&amp;\n</div>" = true := by decide
 example : okIs (Plain.html sampleToks) "<div class=\"a b\" > x \n<pre ><span >  y  </span></pre>&amp;</div>" = true := by decide
 
+
+/-- the plain parser's tree of `sampleToks` in lexical form -/
+def sampleTree : FNode :=
+  .elem (str "div") (mkStore [(str "class", some (str " a  b "))] {}) false
+    [.tok (.data (str " x \n")),
+     .elem (str "pre") {} false [.elem (str "span") {} false [.tok (.data (str "  y  "))]],
+     .tok (.entity (str "amp"))]
+
+/-- a document with raw text: `<!DOCTYPE html><div id="a"><script>if (a < b && c) { s = "</div>"; }</script><p>x</p></div>` -/
+def rawToks : List Tok :=
+  [.decl (str "DOCTYPE html"), .start (str "div") [(str "id", some (str "a"))], .start (str "script") [],
+   .data (str "if (a < b && c) { s = \"</div>\"; }"), .end_ (str "script"), .start (str "p") [], .data (str "x"),
+   .end_ (str "p"), .end_ (str "div")]
+
+def rawTree : FNode :=
+  .elem (str "div") (mkStore [(str "id", some (str "a"))] {}) false
+    [.elem (str "script") {} false [.tok (.data (str "if (a < b && c) { s = \"</div>\"; }"))],
+     .elem (str "p") {} false [.tok (.data (str "x"))]]
+
+/-- the hypotheses of `formatter_output_reparses` are met by `sampleToks` (pretty class, two spaces) … -/
+example : ∃ out toks' ps', format (mkCfg .pretty (.str (str "  ")) false) sampleToks = .ok out ∧
+    lexStrict out = some toks' ∧ Plain.feed (toks'.map Tok.ofToken) = .ok ps' ∧ ps'.doctype = none ∧
+    ps'.root.map cskel = some (cskel sampleTree.toNode) :=
+  formatter_output_reparses (mkCfg .pretty (.str (str "  ")) false) (by decide) sampleToks (by decide)
+    ⟨[], some sampleTree.toNode, none, 0, 0⟩ (by rfl) _ _ _ _ rfl (by decide)
+    (by simp only [FNode.Strict, StrictL]; decide) trivial
+
+/-- a multi-root document: text, a reference and two elements at top level, after a doctype -/
+def multiToks : List Tok :=
+  [.decl (str "doctype html"), .data (str "a "), .start (str "b") [], .data (str "x"), .end_ (str "b"),
+   .entity (str "amp"), .startend (str "br") [], .data (str "\n")]
+
+def multiKids : List FNode :=
+  [.tok (.data (str "a ")), .elem (str "b") {} false [.tok (.data (str "x"))], .tok (.entity (str "amp")),
+   .elem (str "br") {} true [], .tok (.data (str "\n"))]
+
+/-- … by a multi-root document (the wrapper case; pretty class with a tab) … -/
+example : ∃ out toks' ps', format (mkCfg .pretty (.str (str "\t")) false) multiToks = .ok out ∧
+    lexStrict out = some toks' ∧ Plain.feed (toks'.map Tok.ofToken) = .ok ps' ∧
+    ps'.doctype = some (str "doctype html") ∧
+    ps'.root.map cskel = some (cskel (FNode.elem wrapper {} false multiKids).toNode) :=
+  formatter_output_reparses (mkCfg .pretty (.str (str "\t")) false) (by decide) multiToks (by decide)
+    ⟨[], some (FNode.elem wrapper {} false multiKids).toNode, some (str "doctype html"), 0, 0⟩ (by rfl) _ _ _ _ rfl
+    (by decide) (by simp only [multiKids, FNode.Strict, StrictL]; decide) (by decide)
+
+/-- … and by a document with a doctype and a `<script>` whose content has `<`, `&&` and `</div>` (mini class) -/
+example : ∃ out toks' ps', format (mkCfg .mini .dflt false) rawToks = .ok out ∧
+    lexStrict out = some toks' ∧ Plain.feed (toks'.map Tok.ofToken) = .ok ps' ∧
+    ps'.doctype = some (str "DOCTYPE html") ∧ ps'.root.map cskel = some (cskel rawTree.toNode) :=
+  formatter_output_reparses (mkCfg .mini .dflt false) (by decide) rawToks (by decide)
+    ⟨[], some rawTree.toNode, some (str "DOCTYPE html"), 0, 0⟩ (by rfl) _ _ _ _ rfl (by decide)
+    (by simp only [FNode.Strict, StrictL]; decide) (by decide)
+
+/-- … and by the same multi-root document under the slim classes (`<b>`, `<br/>`) -/
+example : ∃ out toks' ps', format (mkCfg .slim (.int 4) true) multiToks = .ok out ∧
+    lexStrict out = some toks' ∧ Plain.feed (toks'.map Tok.ofToken) = .ok ps' ∧
+    ps'.doctype = some (str "doctype html") ∧
+    ps'.root.map cskel = some (cskel (FNode.elem wrapper {} false multiKids).toNode) :=
+  formatter_output_reparses (mkCfg .slim (.int 4) true) (by decide) multiToks (by decide)
+    ⟨[], some (FNode.elem wrapper {} false multiKids).toNode, some (str "doctype html"), 0, 0⟩ (by rfl) _ _ _ _ rfl
+    (by decide) (by simp only [multiKids, FNode.Strict, StrictL]; decide) (by decide)
+
+/-- `formatter_roundtrip_strict` on the raw-text document (slim-mini class) -/
+example : ∃ out toks' ps', format (mkCfg .slimMini .dflt true) (strictToks (some (str "DOCTYPE html")) rawTree) = .ok out ∧
+    lexStrict out = some toks' ∧ Plain.feed (toks'.map Tok.ofToken) = .ok ps' ∧
+    ps'.doctype = some (str "DOCTYPE html") ∧ ps'.root.map cskel = some (cskel rawTree.toNode) :=
+  formatter_roundtrip_strict (mkCfg .slimMini .dflt true) (by decide) _ (by decide) _ _ _ _
+    (by simp only [FNode.Strict, StrictL]; decide) (by decide) (by decide)
+
+/-- `mini_output_is_fixed_point_text` on `sampleTree` (white space around text, a `pre` with a nested element, a
+    reference) and on the raw-text document, slim-mini class -/
+example : ∃ out toks2, format (mkCfg .slimMini .dflt true) (strictToks none sampleTree) = .ok out ∧
+    lexStrict out = some toks2 ∧ format (mkCfg .slimMini .dflt true) (toks2.map Tok.ofToken) = .ok out :=
+  mini_output_is_fixed_point_text (mkCfg .slimMini .dflt true) rfl (by decide) none trivial _ _ _ _
+    (by simp only [FNode.Strict, StrictL]; decide)
+    (by simp only [FNode.Glued, GluedL, FNoAdjL, fisDataTok]; decide)
+    (by simp only [FNode.NoWrapper, NoWrapperL]; decide)
+
+example : ∃ out toks2, format (mkCfg .mini .dflt false) (strictToks (some (str "DOCTYPE html")) rawTree) = .ok out ∧
+    lexStrict out = some toks2 ∧ format (mkCfg .mini .dflt false) (toks2.map Tok.ofToken) = .ok out :=
+  mini_output_is_fixed_point_text (mkCfg .mini .dflt false) rfl (by decide) _ (by decide) _ _ _ _
+    (by simp only [FNode.Strict, StrictL]; decide)
+    (by simp only [FNode.Glued, GluedL, FNoAdjL, fisDataTok]; decide)
+    (by simp only [FNode.NoWrapper, NoWrapperL]; decide)
+
+/-- the output texts in question -/
+example : okIs (format (mkCfg .slim (.int 4) true) multiToks)
+    "<!doctype html>\na \n<b>x\n</b>&amp;\n<br/>" = true := by decide
+example : okIs (format (mkCfg .pretty .dflt false) rawToks)
+    "<!DOCTYPE html>\n\n<div id=\"a\" >\n  <script >if (a < b && c) { s = \"</div>\"; }\n  </script>\n  <p >x\n  </p>\n</div>"
+    = true := by decide
+
 /-!
   #### What is partial
 
-  * `reparse_partial` (not stated as a theorem): "the output *text* parses back to that tree" is
-    `Plain.feed (lex (format cfg toks)) ≈ Plain.feed toks` for the real tokenizer `lex`.  Missing: the character-level
-    lexer and its round-trip lemma on serialiser output (C01's `lexStrict (render ts) = some ts`, another group's
-    Model/Lexer), plus the fact that the white-space-only text the `_indent`s add vanishes under `skel`.  The tie
-    checks it on every case (oracle `preserves`: the real parser re-reads the real formatter's output).
+  * `formatter_output_reparses` is stated on the plain parser's *tree* of the input (`ps.root = some u.toNode`,
+    `u.Strict`), not on the input's token list: that every token list of the strict sub-language (C01's `ListOK`)
+    builds a `Strict` tree is not proved (it needs an invariant over `Plain.run` for arbitrary nesting); attribute
+    stores are assumed stable under re-reading (`mkStore st.items {} = st`, part of `Strict` — C09/C10's subject);
+    documents with the data singletons `<` / `&` as text blocks are outside (`NotSingleton`: the data rule can strip
+    the white space that kept `<` from opening markup, e.g. `<\nabc` → `<abc`, on the real library too).  The
+    comparison is by `cskel` (= `skel` + empty data blocks dropped + adjacent data blocks joined), which is what "same
+    text modulo white space" means once the `_indent`s have become text of the document.
   * C11c (`getFormattedHTML`/`getMiniHTML` = formatter ∘ `getHTML`): these two methods are compositions with the
     tokenizer in between; checked by the oracle (`convenience`) and the correspondence stream (`via: parser`).
 -/
